@@ -172,6 +172,68 @@ Section Policy.
     | [] => (p, [])
     | o :: r => let '(p1, x) := pstep p o in let '(p2, xs) := prun p1 r in (p2, x :: xs)
     end.
+
+  (* ---- which policy OBJECT each path consults.  Every Cluster owns one policy object; Session.__init__ builds a
+     per-session ProtocolHandler subclass holding a reference to cluster.column_encryption_policy (result decoding), and
+     Session.prepare hands the same reference to PreparedStatement.from_message, whose three returns (no bind markers /
+     partition-key indexes from the server / indexes derived from schema metadata or unknown: protocol v3, key not fully
+     bound) all pass it on (binding).  A reference: a later add_column on the cluster's policy is seen by both. ---- *)
+  Definition world : Type := list policy.                     (* cluster id -> its policy object's registrations *)
+
+  Definition cluster_policy (w : world) (c : nat) : policy := nth c w [].
+
+  Inductive prep_shape : Type := NoMarkers | ServerPkIndexes | NoPkIndexes.
+
+  Definition stmt_policy (w : world) (c : nat) (sh : prep_shape) : policy :=
+    match sh with
+    | NoMarkers => cluster_policy w c
+    | ServerPkIndexes => cluster_policy w c
+    | NoPkIndexes => cluster_policy w c
+    end.
+
+  (* sessions : session id -> cluster id, in creation order *)
+  Definition handler_policy (w : world) (sessions : list nat) (s : nat) : policy := cluster_policy w (nth s sessions 0%nat).
+
+  (* NOT the code: one process-wide handler class that every Session.__init__ overwrites (kept for C39_shared_handler_refuted) *)
+  Definition handler_policy_shared (w : world) (sessions : list nat) (s : nat) : policy := cluster_policy w (last sessions 0%nat).
+
+  Fixpoint upd_nth {A} (i : nat) (f : A -> A) (l : list A) : list A :=
+    match l, i with
+    | [], _ => []
+    | x :: r, O => f x :: r
+    | x :: r, S i' => x :: upd_nth i' f r
+    end.
+
+  Inductive wop : Type :=
+  | WNewCluster                                   (* Cluster(column_encryption_policy=<fresh policy>) *)
+  | WAdd (c : nat) (d : coldesc) (k : list Z) (t : T)     (* policy of cluster c: add_column, also for a column already registered *)
+  | WConnect (c : nat)                            (* Session.__init__ for cluster c *)
+  | WRound (s : nat) (sh : prep_shape) (ms : list marker) (iv : list Z) (rows : list (list (option V))).
+
+  Definition wstate : Type := (world * list nat)%type.
+
+  Definition wstep_with (hp : world -> list nat -> nat -> policy) (st : wstate) (o : wop) : wstate * pout :=
+    let '(w, sessions) := st in
+    match o with
+    | WNewCluster => ((w ++ [[]], sessions), OutAdded)
+    | WAdd c d k t => ((upd_nth c (fun p => add_column p d k t) w, sessions), OutAdded)
+    | WConnect c => ((w, sessions ++ [c]), OutAdded)
+    | WRound s sh ms iv rows =>
+        let c := nth s sessions 0%nat in
+        let sent := bind_rows V T ser enc iv (map (resolve (stmt_policy w c sh)) ms) rows in
+        (st, OutRound sent (match sent with
+                            | Some wire => decode_rows V T deser dec (map (resolve (hp w sessions s)) ms) wire
+                            | None => None
+                            end))
+    end.
+
+  Definition wstep := wstep_with handler_policy.
+
+  Fixpoint wrun (st : wstate) (ops : list wop) : wstate * list pout :=
+    match ops with
+    | [] => (st, [])
+    | o :: r => let '(s1, x) := wstep st o in let '(s2, xs) := wrun s1 r in (s2, x :: xs)
+    end.
 End Policy.
 
 Arguments mkmarker {T}. Arguments m_desc {T}. Arguments m_type {T}.
